@@ -29,7 +29,10 @@ inline bool same_orientation4(const std::vector<int> &a, const std::vector<int> 
 inline bool is_tet(const Bf &bf, int c) {
     if (bf.chf[c].size() != 4) return false;
     for (int hf : bf.chf[c]) if (bf.hfhe[hf].size() != 3) return false;
-    return bf.cv(c).size() == 4 && closed_surface(bf, bf.chf[c]);
+    // four DIFFERENT triangles on four vertices: both sides of one face ("pillow") are a closed surface but no tetrahedron
+    std::set<std::set<int>> tri;
+    for (int hf : bf.chf[c]) { auto v = bf.hfv(hf); tri.insert(std::set<int>(v.begin(), v.end())); }
+    return tri.size() == 4 && bf.cv(c).size() == 4 && closed_surface(bf, bf.chf[c]);
 }
 inline int apex_of(const Bf &bf, int c, int hf) { auto cv = bf.cv(c); for (int v : bf.hfv(hf)) cv.erase(v); return cv.size() == 1 ? *cv.begin() : -1; }
 
@@ -195,7 +198,9 @@ inline bool clean_complex(const Bf &bf) {
 inline bool is_hex_cell(const Bf &bf, int c) {
     if (bf.chf[c].size() != 6) return false;
     for (int hf : bf.chf[c]) if (bf.hfhe[hf].size() != 4) return false;
-    return bf.cv(c).size() == 8 && closed_surface(bf, bf.chf[c]);
+    std::set<std::set<int>> quads;  // six different quads (no pillow pairs)
+    for (int hf : bf.chf[c]) { auto v = bf.hfv(hf); quads.insert(std::set<int>(v.begin(), v.end())); }
+    return quads.size() == 6 && bf.cv(c).size() == 8 && closed_surface(bf, bf.chf[c]);
 }
 inline int adj_in_cell_brute(const Bf &bf, int c, int hf, int he) {
     int r = -1;
